@@ -61,6 +61,8 @@ def shell(rng, l, K=None, M=None, typ=None, cen=None, lo=0.02, hi=None, bits=24,
         e = exponent(rng, lo, hi, bits)
         if e not in exps:
             exps.append(e)
+    if K >= 2 and rng.random() < 0.08:
+        exps[rng.randrange(1, K)] = list(exps[0])        # the same exponent listed twice (a split primitive): legal
     cen = cen if cen is not None else center(rng, span)
     coeffs = [[coeff(rng) for _ in range(M)] for _ in range(K)]
     if M >= 2 and rng.random() < 0.4:
